@@ -31,6 +31,8 @@ def main():
                 r = subprocess.run(['/venv/bin/python', '-m', 'pytest', '-q', '-x', '-p', 'no:cacheprovider', '--timeout=300'],
                                    cwd=repo, capture_output=True, text=True, timeout=900)
                 st = 'suite:%s ' % ('pass' if r.returncode == 0 else 'FAIL')
+                # tests/test_remote.py starts a server it never closes; with some mutants that server never exits on its own
+                subprocess.run(['pkill', '-f', os.path.join(repo, 'supp', 'server.py')])
             cmd = [os.path.join(HERE, 'check'), prop] + (['--only', m['harness']] if m.get('harness') and '--fast' in sys.argv else [])
             r = subprocess.run(cmd, cwd=HERE, capture_output=True, text=True, env=dict(os.environ, SUPP_REPO=repo), timeout=3600)
             viol = [l for l in r.stdout.splitlines() if l.startswith('VIOLATION')]
